@@ -7,6 +7,7 @@ import (
 	"math/rand"
 	"strings"
 
+	"github.com/RoaringBitmap/roaring"
 	segment "github.com/blugelabs/bluge_segment_api"
 	ice "github.com/blugelabs/ice/v2"
 
@@ -287,4 +288,51 @@ func usable(c *runner.Ctx, w *gen.World, err error) *gen.World {
 		w.Close()
 	}
 	return nil
+}
+
+// abortedMergeHistory gives the process a hostile history before a case runs: merges (public Merger.WriteTo
+// and the chunk-mode-parameterised merge writer) of two small private segments that are aborted by a failing
+// writer at offsets spread over the whole file, always including offsets inside the 44-byte footer, and by a
+// close channel closed part-way. Library state that survives an aborted merge (pooled buffers, scratch
+// bitmaps) then meets the operations of the case. It draws from its own PRNG, so the case's stream is unchanged.
+func abortedMergeHistory(c *runner.Ctx) {
+	hr := rand.New(rand.NewSource(int64(c.Idx)*7919 + 17))
+	sch := gen.GenSchema(hr)
+	a, err := gen.BuildSeg(gen.GenBatch(hr, sch, 3+hr.Intn(12), fmt.Sprintf("ha%d", c.Idx), gen.DocOpts{Repeat: true}), 1025)
+	if err != nil {
+		return
+	}
+	defer a.Close()
+	b, err := gen.BuildSeg(gen.GenBatch(hr, sch, 2+hr.Intn(8), fmt.Sprintf("hb%d", c.Idx), gen.DocOpts{}), 1025)
+	if err != nil {
+		return
+	}
+	defer b.Close()
+	ss := []segment.Segment{a.S, b.S}
+	dr := []*roaring.Bitmap{nil, gen.Drops(hr, len(b.X.Docs), 2)}
+	ref, _, _, err := gen.MergeBytes([]*gen.Seg{a, b}, dr, 0)
+	if err != nil || len(ref) < 50 {
+		return
+	}
+	L := len(ref)
+	offs := []int{L - 1, L - 1 - hr.Intn(44), L - 44, hr.Intn(L), hr.Intn(L), L/2 + hr.Intn(L/2)}
+	for i, at := range offs {
+		fw := &failWriter{at: at}
+		runner.Try(func() {
+			if i%2 == 0 {
+				_, err = ice.Merge(ss, dr, 0).WriteTo(fw, nil)
+			} else {
+				_, _, err = ice.VerifMerge(ss, dr, fw, 1025, nil)
+			}
+		})
+		if err != nil {
+			c.Inc("history.aborted_merges", 1)
+		}
+	}
+	ch := make(chan struct{})
+	cw := &cancelWriter{ch: ch, at: hr.Intn(L)}
+	runner.Try(func() { _, err = ice.Merge(ss, dr, 0).WriteTo(cw, ch) })
+	if err != nil {
+		c.Inc("history.cancelled_merges", 1)
+	}
 }
